@@ -14,7 +14,7 @@ import itertools
 import os
 import re
 
-from .. import common, drive, gen, invariants, xf
+from .. import common, drive, gen, invariants, render, xf
 from ..model import Form, Row
 
 PROP = "C07"
@@ -81,7 +81,13 @@ def default_lang(form):
 
 
 def check(ctx, form, klass, sig):
-    o = drive.convert_form(form)
+    if form.meta.get("dict_blank_cells"):
+        import random as _r
+        # rows as a table reader hands them over: blank cells spelt '' (a choice whose translated label cells are all blank, a row without its hint ...)
+        o = drive.call_convert(render.to_dict_blank_cells(form.to_sheets(), _r.Random(form.meta["dict_blank_cells"])), **dict(form.args))
+        ctx.ctr("dict_blank_cell_forms")
+    else:
+        o = drive.convert_form(form)
     if not o.ok:
         ctx.ctr(f"rejected:{klass}")
         if not o.exc_is_pyxform:
@@ -220,7 +226,9 @@ def run_shard(ctx):
         if rng.random() < 0.3:
             form.settings.pop("default_language", None)
             if rng.random() < 0.5:
-                form.args["default_language"] = rng.choice(form.meta["langs"] + ["Other (ot)"])
+                form.args["default_language"] = rng.choice(form.meta["langs"] + ["Other (ot)", "", ""])  # the empty name is a name too (an API caller's "no name")
+        if i % 5 == 3:
+            form.meta["dict_blank_cells"] = i + 1
         o = check(ctx, form, "sparse", common.feature_sig(form))
         if i < 2 and o is not None:
             ctx.sample({"class": "sparse", "form_md": common.sheets_to_md(form.to_sheets())[:2000], "observed": "itext closure held"})
@@ -269,8 +277,11 @@ def json_api_forms(ctx):
         rng = ctx.rng("json-api", i)
         langs = rng.choice([["en", "fr"], ["x"]])
         choices = [{"name": f"c{k}", "label": {L: f"C{k} {L}" for L in langs}} for k in range(rng.randint(1, 3))]
+        if i % 3 == 1:
+            # a choice whose label is there but blank in every language (or in some): blank is not absent for an API caller
+            choices.append({"name": "blank", "label": {L: rng.choice(["", "", "x"]) if i % 2 else "" for L in langs}})
         sel = {"type": rng.choice(["select one", "select all that apply"]), "name": "s1", "label": {L: f"S {L}" for L in langs}, "itemset": "lst", "choices": choices,
-               "control": {"appearance": rng.choice(["search('f')", "minimal search('f')", "minimal"])}}
+               "control": {"appearance": rng.choice(["search('f')", "minimal search('f')", "minimal", "minimal"])}}
         if rng.random() < 0.5:
             sel["list_name"] = "lst"
         d = {"type": "survey", "name": "data", "id_string": "j", "title": "j", "default_language": langs[0], "choices": {"lst": choices},
